@@ -89,6 +89,26 @@ def jaccard (t : Nat × Nat × Nat × Nat × Nat) (a b : Compact Unit) (seed : U
                   else if f == 1.0 then s!"J {hexF est} {hexF est} {hexF est}"
                   else s!"Jest {hexF est}"
 
+/-- `exactly_equal`: same object, both empty, or the union of the two has the retained count and theta of both -/
+def exactlyEqual (t : Nat × Nat × Nat × Nat × Nat) (a b : Compact Unit) (seed : UInt64) (same : Bool) : String :=
+  if same then "E 1"
+  else if a.isEmpty && b.isEmpty then "E 1"
+  else if a.isEmpty || b.isEmpty then "E 0"
+  else
+    let (rszNum, rszDen, rbdNum, rbdDen, minLgK) := t
+    let lgK := min (max (Nat.log2 (ceilPow2 (a.ents.length + b.ents.length))) minLgK) 26
+    let c : Cfg := { lgNom := lgK, lgRf := 3, theta0 := MAX_THETA, lgStart := startingSubMultiple (lgK + 1) minLgK 3,
+                     rszNum := rszNum, rszDen := rszDen, rbdNum := rbdNum, rbdDen := rbdDen }
+    let sh := (seedHash seed).toNat
+    match unionUpdate c nopPolicy sh (unionInit c) a with
+    | none => "throw"
+    | some u1 => match unionUpdate c nopPolicy sh u1 b with
+      | none => "throw"
+      | some u2 =>
+        let uab := unionResult c u2 false sh
+        if uab.ents.length == a.ents.length && uab.ents.length == b.ents.length && uab.theta == a.theta && uab.theta == b.theta
+        then "E 1" else "E 0"
+
 def theta0OfP (pbits : UInt32) : Nat :=
   let p := (Float32.ofBits pbits).toFloat
   if p < 1 then ((UInt64.ofNat MAX_THETA).toFloat * p).toUInt64.toNat else MAX_THETA
@@ -211,6 +231,11 @@ def stepLine (t : Tunables) (o : Objs) (w0 : List String) : Objs × String :=
       | some r => let ob := Obj.cmp r; (o.set' nid ob, observe ob)
       | none => (o, "throw")
     | _, _, _, _ => (o, "bad-op")
+  | ["jeq", aid, bid, seed] =>
+    match (aid.toNat? >>= o.get') >>= operand, (bid.toNat? >>= o.get') >>= operand, seed.toNat? with
+    | some a, some b, some seed =>
+      (o, exactlyEqual (t.rszNum, t.rszDen, t.rbdNum, t.rbdDen, t.minLgK) a b (UInt64.ofNat seed) (aid == bid))
+    | _, _, _ => (o, "bad-op")
   | ["jac", aid, bid, seed] =>
     match (aid.toNat? >>= o.get') >>= operand, (bid.toNat? >>= o.get') >>= operand, seed.toNat? with
     | some a, some b, some seed =>
